@@ -215,6 +215,35 @@ pub fn run(tier: Tier) -> i32 {
         .map(|c| u64::from_le_bytes(c.try_into().unwrap()))
         .collect();
     let _ = std::fs::remove_file(&outf);
+    let other_c = other.clone();
+    let confirm_fn = move |w: &Value| -> Result<Vec<String>, String> {
+        let other = &other_c;
+        let k = w["case"].as_u64().ok_or("no case")? as usize;
+        let mut keys = vec![];
+        enumerate(maxlen, |kk, _names, variant, d, _code| {
+            if kk == k {
+                let vname = if variant < 2 { "A(all-registers-written)" } else { "B(only-rax-rbx-rcx-rsp-written)" };
+                for m in 1..3 {
+                    if d[m] != d[0] {
+                        keys.push(format!("determinism|in-process|{vname}|{}", d[0].diff(&d[m])));
+                    }
+                }
+                if other.get(k) != Some(&d[0].hash()) {
+                    keys.push(format!("determinism|cross-process|{vname}"));
+                }
+            }
+        });
+        keys.sort();
+        keys.dedup();
+        // nondeterminism is the violation itself: which other observables differ may vary from
+        // replay to replay; what must reproduce is the recorded disagreement
+        let want = w["key"].as_str().unwrap_or("").to_string();
+        keys.retain(|k| *k == want);
+        Ok(keys)
+    };
+    if let Some(art) = crate::common::replay_artefact() {
+        return crate::common::finish_replay("C20", &art, &|ws| ws.iter().map(|w| confirm_fn(w)).collect());
+    }
     let mut cases = 0u64;
     let mut distinct = std::collections::HashSet::new();
     let mut samples: Vec<Value> = vec![];
@@ -264,28 +293,5 @@ pub fn run(tier: Tier) -> i32 {
     run.guard("cases", cases >= 5000, format!("{cases} cases"));
     run.guard("digests-distinct", distinct.len() > 50, format!("{} distinct digests", distinct.len()));
     run.assume("pipe descriptors are excepted by the statement and not in the alphabet; to_string() (flag-name order) is not among the listed observables");
-    run.finish(&move |w| {
-        let k = w["case"].as_u64().ok_or("no case")? as usize;
-        let mut keys = vec![];
-        enumerate(maxlen, |kk, _names, variant, d, _code| {
-            if kk == k {
-                let vname = if variant < 2 { "A(all-registers-written)" } else { "B(only-rax-rbx-rcx-rsp-written)" };
-                for m in 1..3 {
-                    if d[m] != d[0] {
-                        keys.push(format!("determinism|in-process|{vname}|{}", d[0].diff(&d[m])));
-                    }
-                }
-                if other.get(k) != Some(&d[0].hash()) {
-                    keys.push(format!("determinism|cross-process|{vname}"));
-                }
-            }
-        });
-        keys.sort();
-        keys.dedup();
-        // nondeterminism is the violation itself: which other observables differ may vary from
-        // replay to replay; what must reproduce is the recorded disagreement
-        let want = w["key"].as_str().unwrap_or("").to_string();
-        keys.retain(|k| *k == want);
-        Ok(keys)
-    })
+    run.finish(&confirm_fn)
 }
